@@ -587,7 +587,12 @@ def b_namedtuple(I, fv, args, kw):
     return VRef(I.path.alloc(HObj("ext", None, meta={"tag": "namedtuple_type", "fields": names})))
 
 
+def b_reversed(I, fv, args, kw):
+    return I.new_list(list(reversed(I.iterate(args[0]))))
+
+
 _TABLE = {
+    "reversed": b_reversed,
     "len": b_len, "sum": b_sum, "min": b_minmax, "max": b_minmax, "any": b_anyall, "all": b_anyall,
     "isinstance": b_isinstance, "range": b_range, "round": b_round, "filter": b_filter, "sorted": b_sorted,
     "getattr": b_getattr, "enumerate": b_enumerate, "zip": b_zip, "abs": b_abs, "hex": b_hex, "repr": b_repr, "ord": b_ord, "chr": b_chr, "divmod": b_divmod,
